@@ -22,7 +22,7 @@ REPO = os.environ.get("VERIF_REPO", "/repo")
 
 class Mismatch(Exception):
     """The implementation disagreed with the oracle on a generated case."""
-    def __init__(self, kind, **detail):
+    def __init__(self, kind, /, **detail):       # positional-only: a detail may itself be called "kind"
         self.kind = kind
         self.detail = detail
         super().__init__(f"{kind}: {detail}")
